@@ -370,7 +370,7 @@ class Model:
             raise AnalysisError('%s: unexpected signature' % f.site)
         val = params[2]
         fnode, _inl = normalize.inline_helpers(f)
-        fnode = normalize.iter_skip_to_slice(fnode)
+        fnode = normalize.iter_skip_to_slice(normalize.islice_to_slice(fnode))
         fnode = normalize.unroll_const_loops(fnode, table_nodes=normalize.class_table_nodes(f.module, f.cls or ''))
         folder = paths.Folder(paths.module_consts(f.module, f.cls or ''))
         loops = []
